@@ -28,7 +28,7 @@ ASSUMPTIONS = ["floats as exact reals; array('d') shim in solvor.simplex; Random
                "tolerance 1e-5 on feasibility / integrality / objective (eps=1e-6 guards executed exactly)",
                "warm starts: concrete vectors (feasibility depends on the symbolic b) and vectors of symbolic Reals in -3..4 (any value, incl. negative / fractional)"]
 STUBS = ["solvor.simplex.array := list shim", "solvor.milp.Random := SymRandom", "solvor.milp.float := symbolic float"]
-GOALS = {"quick": ["milp.optimal", "milp.infeasible", "milp.branching", "milp.mixed", "milp.binary", "milp.warm_start", "milp.solution_pool"],
+GOALS = {"quick": ["milp.node_limit_hit", "milp.optimal", "milp.infeasible", "milp.branching", "milp.mixed", "milp.binary", "milp.warm_start", "milp.solution_pool"],
          "thorough": ["milp.optimal", "milp.infeasible", "milp.branching"]}
 OPTS = {"quick": {"qto": 8000, "path_wall": 20.0, "arith_solver": 2}, "thorough": {"qto": 30000, "path_wall": 120.0, "arith_solver": 2}}
 TOL = Fraction(1, 10 ** 5)
@@ -42,7 +42,7 @@ def dot(a, b):
     return ssum(x * y for x, y in zip(a, b))
 
 
-def h_milp(s, rows, c, U, integers, minimize, heuristics=True, warm=None, lns=0, solution_limit=1, b_fixed=None):
+def h_milp(s, rows, c, U, integers, minimize, heuristics=True, warm=None, lns=0, solution_limit=1, b_fixed=None, max_nodes=500):
     Status = importlib.import_module("solvor.types").Status
     mod = importlib.import_module("solvor.milp")
     smod = importlib.import_module("solvor.simplex")
@@ -59,7 +59,7 @@ def h_milp(s, rows, c, U, integers, minimize, heuristics=True, warm=None, lns=0,
     s.stub(smod, array=sym_array)
     s.stub(mod, float=sym_float)
     s.patch(mod, Random=SymRandom(s))
-    kw = {"heuristics": heuristics, "lns_iterations": lns, "solution_limit": solution_limit, "max_nodes": 500}
+    kw = {"heuristics": heuristics, "lns_iterations": lns, "solution_limit": solution_limit, "max_nodes": max_nodes}
     if warm is not None:
         if warm == "symbolic":
             # warm-start VALUES are symbolic Reals (the length is structural): feasibility of the incumbent is decided by the solver
@@ -105,6 +105,11 @@ def h_milp(s, rows, c, U, integers, minimize, heuristics=True, warm=None, lns=0,
         return
     if st == Status.UNBOUNDED:
         s.check(False, "milp.unbounded_on_a_bounded_box")
+        return
+    if st == Status.MAX_ITER:
+        # "the node limit stopped the search before anything was found": only with a tight limit, and then no solution is presented
+        s.check(max_nodes < 500 and res.solution is None, "milp.max_iter_only_when_the_node_limit_is_tight_and_without_solution", detail=max_nodes)
+        s.goal("milp.node_limit_hit")
         return
     s.check(st in (Status.OPTIMAL, Status.FEASIBLE) and res.solution is not None and len(res.solution) == n, "milp.status_known", detail=str(st))
     if res.solution is None:
@@ -237,6 +242,13 @@ def items(tier, rng):
                 out.append({"name": "milp_warm_badlen", "harness": "h_milp", "params": dict(base, warm=w + [0]), "max_paths": 400, "spread": rng.randrange(1 << 30)})
             if U == 1 and ci % 2 == 0:  # all-binary family
                 out.append({"name": "milp_lns", "harness": "h_milp", "params": dict(base, lns=1), "max_paths": 80, "spread": rng.randrange(1 << 30)})
+    # node limits that run out while the tree is still open: the same obligations hold (OPTIMAL only if optimal, INFEASIBLE only if no
+    # integer-feasible point exists)
+    for k, cell in enumerate(branching_cells(random.Random(rng.randrange(1 << 30)), 12 if q else 120)):
+        cell = dict(cell)
+        cell.pop("b_fixed")
+        out.append({"name": "milp_node_limit", "harness": "h_milp", "max_paths": 300, "spread": rng.randrange(1 << 30),
+                    "params": dict(cell, max_nodes=1 + k % 3, heuristics=(k % 2 == 0))})
     # symbolic warm start on concrete cells that branch: acceptance of the incumbent and everything after it, for ALL warm vectors
     for cell in branching_cells(random.Random(rng.randrange(1 << 30)), 24 if q else 240):
         out.append({"name": "milp_warm_sym_branching", "harness": "h_milp", "max_paths": 400, "spread": rng.randrange(1 << 30),
